@@ -294,7 +294,7 @@ fn case(t: &mut Tape, rec: &mut Rec<'_>) {
 pub fn property() -> Property {
     Property {
         id: "C12",
-        rule: "1..3 reference policies/templates (C05's generator: all operators, nesting up to depth 4 / 6, annotations, escapes) printed with random spelling, re-tokenised by the harness' own tokenizer (string-literal aware) and re-emitted with `//` comments (12 bodies incl. quotes, `/*`, `//`, non-ASCII, empty) \
+        rule: "1..3 reference policies/templates (C05's generator: all operators, nesting up to depth 4 / 6, annotations, escapes; trailing commas in scope, sets, records and argument lists; entity type paths of two to four segments) printed with random spelling, re-tokenised by the harness' own tokenizer (string-literal aware) and re-emitted with `//` comments (12 bodies incl. quotes, `/*`, `//`, non-ASCII, empty) \
                and blank lines / tabs / long runs of spaces injected at random token boundaries (before the first and after the last token too); 2/3 of the inputs carry comments, 1/3 are comment-free. For 4 (thorough: all 20) of the (line_width, indent_width) pairs in {1,10,40,80,200} x {0,2,4,8}: \
                formatting succeeds; the output parses to pairwise equal policies (ids, annotations in order, effect, scope, conditions); the sequence of comment bodies is unchanged; re-formatting the output again preserves policies and comments and, for comment-free input, is the identity. \
                Non-trivial = >=2 comments or a line longer than 80 columns.",
